@@ -112,13 +112,14 @@ theorem accepted_prepared (c : Config) {gp : GPType} {rows cols : Nat}
 
 /-- The resolved triple is consistent with the documented rules: the full family only without
     landmarks or with at least `n` of them, the sparse family only with `0 < n_landmarks < n`, `fixed`
-    only with landmarks, explicit landmarks fix `n_landmarks`, the rank is not negative, and the type
+    only with landmarks, explicit landmarks fix `n_landmarks` (except that `fixed` keeps the `n` cells as landmarks
+    next to a larger request, the state its own fit leaves behind), the rank is not negative, and the type
     is a Nyström type exactly when the rank request asks for a reduction. -/
 theorem rules (c : Config) (r : Resolved) (h : prepare c = .ok r) :
     (r.gp.isFullFamily → r.nl = 0 ∨ c.n ≤ r.nl) ∧
     (r.gp.isSparseFamily → 0 < r.nl ∧ r.nl < c.n) ∧
     (r.gp = .fixed → r.nl ≠ 0) ∧
-    (∀ m, c.landmarks = some m → r.nl = m) ∧
+    (∀ m, c.landmarks = some m → r.nl = m ∨ (r.gp = .fixed ∧ m = c.n ∧ c.n < r.nl)) ∧
     r.rank.isNegative = false ∧
     (r.gp.isNystroem ↔ rankIndicatesFull r.gp c.n r.rank r.nl = false) := by
   obtain ⟨_, _, _, _, _, _, _, _, _, hv⟩ := prepare_ok h
@@ -300,7 +301,7 @@ theorem negative_rank_refused :
 theorem function_never_nystroem (c : Config) (hest : c.est = .function) {gp : GPType} {rows cols : Nat}
     {cls : PredFamily} (h : resolve c = .ok gp rows cols cls) : ¬ gp.isNystroem := by
   rw [resolve_function hest] at h
-  obtain ⟨r, lm, _, _, _, hf, hN⟩ := resolveFunction_ok h
+  obtain ⟨r, lm, _, _, _, hf, hN, _⟩ := resolveFunction_ok h
   rw [(functionPredictor_ok hf).1]
   exact hN
 
@@ -340,7 +341,12 @@ theorem shape_promise (c : Config) {gp : GPType} {rows cols : Nat}
         have hr := (rules _ r hp).2.2.2.1
         cases hcl : c.landmarks with
         | none => simp only [Option.getD_none]; split_ifs <;> omega
-        | some m => have := hr m hcl; simp only [Option.getD_some]; omega
+        | some m =>
+          simp only [Option.getD_some]
+          rcases hr m hcl with this | ⟨_, this, _⟩
+          · omega
+          · have hm : m = c.n := this
+            omega
     · intro hgp; rw [hcols, if_pos (Or.inl hgp)]
     · intro hgp; rw [hgp] at hN; exact absurd trivial hN
     · intro hgp
@@ -531,6 +537,68 @@ theorem function_matrix_sigma_refused :
       est := .function, n := 6, nLandmarks := none, landmarks := none, rank := .none,
       gpType := .none, withUnc := false, opt := .lbfgsb, kept := 1, sigma := .matN 2 }
       = .refused .sigmaShape := by decide
+
+/-- A one-dimensional `sigma` whose length is not the number of cells is never accepted, whatever the other options
+    (it used to be broadcast for one entry and to die with an internal shape error otherwise). -/
+theorem function_wrong_length_sigma_never_accepted (c : Config) (hest : c.est = .function) (k : Nat)
+    (hs : c.sigma = .vecL k) (hk : k ≠ c.n) {gp : GPType} {rows cols : Nat} {cls : PredFamily} :
+    resolve c ≠ .ok gp rows cols cls := by
+  intro h
+  rw [resolve_function hest] at h
+  obtain ⟨_, _, _, _, _, _, _, hw⟩ := resolveFunction_ok h
+  rw [hs] at hw
+  simp [SigmaForm.wrongLength, hk] at hw
+
+/-- … and, everything else being acceptable, the refusal names `sigma`; a vector of the right length is the
+    per-cell vector. -/
+theorem function_wrong_length_sigma_refused :
+    resolve {
+      est := .function, n := 6, nLandmarks := none, landmarks := none, rank := .none,
+      gpType := .none, withUnc := false, opt := .lbfgsb, kept := 1, sigma := .vecL 1 }
+      = .refused .sigmaShape ∧
+    resolve {
+      est := .function, n := 6, nLandmarks := none, landmarks := some 4, rank := .none,
+      gpType := .none, withUnc := true, opt := .lbfgsb, kept := 1, sigma := .vecL 7 }
+      = .refused .sigmaShape ∧
+    resolve {
+      est := .function, n := 6, nLandmarks := none, landmarks := some 4, rank := .none,
+      gpType := .none, withUnc := true, opt := .lbfgsb, kept := 1, sigma := .vecL 6 }
+      = .ok .sparseCholesky 6 4 .landmarks := by decide
+
+/-- `fixed` with more requested landmarks than cells keeps the `n` cells as landmarks; handing these landmarks back
+    together with the same request (what every repeated `fit` of such a model does, and what a fresh model given the
+    fitted model's landmarks does) is accepted and resolves exactly as the first fit. -/
+theorem fixed_overrequest_refit (c : Config) (hl : c.landmarks = none) (r : Resolved)
+    (hp : prepare c = .ok r) (hg : r.gp = .fixed) (hn : c.n < r.nl) (hnl : c.nLandmarks = some (r.nl : Int)) :
+    prepare { c with landmarks := some c.n } = .ok r := by
+  obtain ⟨nlU, rkU, gpU, h1, h2, h3, h4, h5, h6, hv⟩ := prepare_ok hp
+  have hnlU : nlU = some r.nl := by
+    rw [hnl] at h1
+    simp only [initNLandmarks, validateNonnegInt] at h1
+    have hneg : ¬ ((r.nl : Int) < 0) := by omega
+    rw [if_neg hneg] at h1
+    simp [Except.map] at h1
+    exact h1.symm
+  subst hnlU
+  unfold prepare
+  dsimp only
+  rw [h1, h2, h3]
+  simp only [Option.getD_some] at h5 h6 ⊢
+  rw [← h5, ← h6]
+  have hv' : validateParams r.rank r.gp c.n r.nl (some c.n) = .ok () := by
+    rw [validateParams_ok] at hv ⊢
+    refine ⟨fun m hm => Or.inr ⟨hg, (Option.some.inj hm).symm, hn⟩, hv.2⟩
+  rw [hv']
+
+example :
+    resolve {
+      est := .density, n := 12, nLandmarks := some 13, landmarks := some 12, rank := .none,
+      gpType := .str ['f','i','x','e','d'], withUnc := false, opt := .lbfgsb, kept := 12, sigma := .scalar }
+      = .ok .fixed 12 12 .landmarksCholesky ∧
+    resolve {
+      est := .density, n := 12, nLandmarks := some 13, landmarks := some 11, rank := .none,
+      gpType := .str ['f','i','x','e','d'], withUnc := false, opt := .lbfgsb, kept := 11, sigma := .scalar }
+      = .refused .landmarkCount := by decide
 
 /-- F6: explicit landmarks (8 rows ≥ 6 cells) resolve to `full` and the Full predictor. -/
 theorem function_full_with_landmarks_is_full :
